@@ -596,6 +596,9 @@ package badger
 //@   assert[every-seek-tracked] before return : old(it.iitr != nil) && old(len(key)) > 0 ==> called(addReadKey)
 //@   assert[forward-at-read-ts] before call KeyWithTs#1 : !it.opt.Reverse && arg1 == it.txn.readTs
 //@   assert[reverse-at-zero] before call KeyWithTs#2 : it.opt.Reverse && arg1 == 0
+//@   assert[last-key-forgotten] before call prefetch : len(it.lastKey) == 0
+//@   assert[no-key-means-prefix] before call KeyWithTs : (old(len(key)) > 0 ==> arg0 == old(key)) && (old(len(key)) == 0 ==> arg0 == it.opt.Prefix)
+//@   assert[rewind-only-without-key-and-prefix] before call Rewind : old(len(key)) == 0 && len(it.opt.Prefix) == 0
 //@   assert[seek-encoded] before call Seek : (called(KeyWithTs#1) ==> arg1 == ret(KeyWithTs#1)) && (called(KeyWithTs#2) ==> arg1 == ret(KeyWithTs#2)) && (called(KeyWithTs#1) || called(KeyWithTs#2))
 
 // ---- MANIFEST replay (C17) ----
